@@ -504,6 +504,10 @@ def search_jobs(ck, tier, cases):
         files, entry = g.wrap_import(rng, src, syn)
         o = with_opts(rng, "scss")
         jobs.append(("via-import", compile_job(None, files=files, entry=entry, **o)))
+    # the fixed non-UTF-8 family (lone continuation, invalid leads, invalid byte in the middle, sequences truncated at
+    # the END of the file / before ASCII) as entry file and through @import/@use/@forward/meta.load-css, by extension
+    for label, files, entry in g.non_utf8_jobs():
+        jobs.append(("non-utf8-family", compile_job(None, files=files, entry=entry, quiet=True)))
     # import / module cycles (must be errors, not unbounded recursion)
     for files, entry in [({"a.scss": '@import "a";'}, "a.scss"), ({"a.scss": '@use "a";'}, "a.scss"), ({"a.scss": '@forward "a";'}, "a.scss"),
                          ({"a.scss": '@import "b";', "b.scss": '@import "a";'}, "a.scss"), ({"a.scss": '@use "b";', "b.scss": '@use "a";'}, "a.scss"),
@@ -675,6 +679,10 @@ def run(tier, seed):
             ck.count(("search", stream, job_text(job), job.get("options")), True)
             ck.hist("stream:" + stream)
             check_answer(ck, job, ans, span_checks, stream)
+            if stream == "non-utf8-family" and ans.get("status") in ("ok", "err") and ans.get("err", {}).get("kind") != "utf8":
+                # bytes that are not UTF-8 are reported as such (FromUtf8Error), never compiled
+                ck.failures.append({"tag": "non-utf8-not-reported", "detail": f"status {ans.get('status')} kind {ans.get('err', {}).get('kind')}",
+                                    "job": job, "stream": stream})
             if len(ck.cov["samples"]) < 8 and ans.get("status") == "err" and stream in ("mutation", "token-soup"):
                 ck.sample({"stream": stream, "source": job_text(job)[:120], "options": job.get("options"), "status": "err",
                            "message": ans.get("err", {}).get("message")})
